@@ -780,7 +780,7 @@ def router_histories(tier, rng):
             rng.shuffle(wn)
             gs = gen_gates(rng, n, rng.randint(2, 10), pmid=0, style=rng.choice(["mixed", "far", "hot"]))
             if rng.random() < 0.5:
-                gs += [g_ for g_ in gen_trailing(rng, n) if len(g_[1]) != 3 or kind != "x"]
+                gs += gen_trailing(rng, n)
             calls.append(mk_spec(g, wn, gs, [kind, rkw]))
         out.append({"router": [kind, rkw], "calls": calls})
     return out
